@@ -173,13 +173,17 @@ RdItems(ts, i, tbl, acc) ==
                   IF ~e.ok THEN Fail
                   ELSE IF IsKW(TokAt(ts, e.i), "AS") /\ TokAt(ts, e.i + 1).k = "qid"
                        THEN Ok([e |-> e.v, as |-> TokAt(ts, e.i + 1).v], e.i + 2)
+                       ELSE IF TokAt(ts, e.i).k = "qid"                      \* alias without AS
+                       THEN Ok([e |-> e.v, as |-> TokAt(ts, e.i).v], e.i + 1)
                        ELSE Ok([e |-> e.v, as |-> ""], e.i)
   IN IF ~one.ok THEN Fail
      ELSE IF IsOP(TokAt(ts, one.i), ",") THEN RdItems(ts, one.i + 1, tbl, Append(acc, one.v))
      ELSE Ok(Append(acc, one.v), one.i)
 
 RdAlias(ts, i) ==
-  IF IsKW(TokAt(ts, i), "AS") /\ TokAt(ts, i + 1).k = "qid" THEN Ok(TokAt(ts, i + 1).v, i + 2) ELSE Ok("", i)
+  IF IsKW(TokAt(ts, i), "AS") /\ TokAt(ts, i + 1).k = "qid" THEN Ok(TokAt(ts, i + 1).v, i + 2)
+  ELSE IF TokAt(ts, i).k = "qid" THEN Ok(TokAt(ts, i).v, i + 1)                   \* alias without AS
+  ELSE Ok("", i)
 
 RdSourceItem(ts, i, tbl) ==
   LET t == TokAt(ts, i) IN
